@@ -19,4 +19,23 @@ PROPS = {
             "a voucher naming the same merge lane twice subtracts that lane once per list entry (code and model agree; exhibited as an example, recorded in notes)",
         ],
     },
+    "C20": {
+        "lean_targets": ["BA.Props.C20"],
+        "harness": "c20",
+        "translators": ["extract_constants.py"],
+        "leanchecker": True,
+        "trusted_base": COMMON_TB + [
+            "the vvm's create_actor rule (new actor, placeholder -> code swap, else forbidden), auto-creation of accounts/placeholders by sends, placeholder -> EthAccount promotion of a top-level sender and new_actor_address (shared per-message counter) stand in for ref-fvm's",
+            "Keccak-256 and RLP are executable Lean code validated by tests only (known-answer vectors incl. the repo's compute_address vectors, random inputs against the implementation's hash and the rlp crate, every address the real EAM returns); no theorem depends on their values",
+            "the robust address (new_actor_address), constructor outcomes (ok / fail / self-destruct in init code) and the endowment check are environment inputs of the model; the harness derives them from the real returns, the invocation trace and the init code it built",
+            "nested creations inside constructors are flattened by the harness into a sequence of model operations in id-assignment order (creations inside a rolled-back frame are dropped)",
+        ],
+        "assumptions": [
+            "collision resistance of Keccak-256 (distinct pre-images -> distinct addresses) is the usual assumption; the theorems prove injectivity of the pre-images only",
+            "deployer nonces only grow is read per incarnation: Resurrect re-initialises a dead contract with nonce 1 (System::resurrect -> System::new), as Ethereum does for a re-created self-destructed contract; (incarnation, nonce) is lexicographically monotone",
+            "reserved ranges are enforced by the EAM (can_assign_address), not by the init actor: a plain send to the f410 form of a reserved eth address creates a placeholder there, no contract can ever be deployed over it",
+            "anyone may create multisigs and payment channels = any built-in non-EVM caller: Exec is below the FRC-42 range, restrict_internal_api rejects EVM contracts and non-builtin code",
+            "u64 overflow of next_id and of nonces is out of scope (Nat in the model)",
+        ],
+    },
 }
